@@ -349,7 +349,9 @@ class Bench:
             tol = {n: 20 * W.q_amt(n) for n in mexp.contents}
             self.compare_vessel(c, mexp, tol, key, 'new', prop='C10', clause='constructed_contents')
         if status != 'must_refuse':
-            W.add(name, c, fresh=True)
+            # "fresh" = every stored amount comes from one user decimal string; a substance listed twice is added twice and
+            # carries two roundings (the incrementally kept volume and the contents may differ by a rounding step)
+            W.add(name, c, fresh=len(set(s for s, _ in contents)) == len(contents))
             self.n_ok_state += 1
             self.after_result(ev, [(name, c)], key)
         return {'out': 'ok', 'status': status, 'fp': repr(fp_container(c)[2:4])}
